@@ -1131,6 +1131,24 @@ class StubsLib(StubsBase):
             target.elem = newv.elem
             target.written = True
             return True
+        if isinstance(cur, Qty):
+            # a scalar Quantity is an ndarray subclass too: q *= 2, q <<= unit change the *object* q, which every
+            # holder of that object sees (the caller's argument, a signal that stored it, signals made from it)
+            ctx.note("stub:scalar Quantity augmented assignment mutates the Quantity object in place")
+            if id(cur) in getattr(ctx, "frozen_qty", {}) and f"qty:{id(cur)}" not in ctx.sanctioned:
+                ctx.oblige(f"frame.quantity-write[augassign {type(op).__name__}]", False, "frame", {"target": ctx.frozen_qty[id(cur)]})
+            if isinstance(op, ast.LShift):
+                if not isinstance(rhs, Unit):
+                    raise Unsupported("<<= on a Quantity with a non-unit operand")
+                new = self.q_to(ctx, cur, rhs)
+            else:
+                new = self.binop(op, Qty(cur.val, cur.dim, cur.unit, cur.cls), rhs, ctx)
+            if not isinstance(new, Qty):
+                new = Qty(new, ())
+            if new.dim != cur.dim and not isinstance(op, ast.LShift):
+                raise PyExc("UnitTypeError", "in-place operation would change the unit's dimension")
+            cur.val, cur.dim, cur.unit = new.val, new.dim, new.unit if isinstance(op, ast.LShift) else cur.unit
+            return True
         return super().inplace(cur, op, rhs, ctx)
 
     # -- arithmetic ------------------------------------------------------------------
